@@ -101,17 +101,48 @@ func vdRun(t *testing.T, tr *vkTrace, bh vdBehaviour, pair *vdPair) (bool, bool)
 	var opens, closes atomic.Int64
 
 	var gates *vkGates
+	var rGid atomic.Int64 // the goroutine of the channel's read loop, once it showed up at a gate
+	var lastMu sync.Mutex
+	last := map[string]string{} // the gate each actor passed last
 	classify := func(gid int64, bound, point string, obj any) string {
 		if d, ok := obj.(*DataChannel); ok {
 			if d.label != label || d.api != pair.a.api {
 				return "" // other channels, and the remote peer's end of this one
 			}
 			if point == "dc.readLoop.ending" || point == "dc.readLoop.exit" {
+				rGid.Store(gid)
+				lastMu.Lock()
+				last["R"] = point
+				lastMu.Unlock()
 				return "R"
 			}
-			return bound // O (handleOpen) and C (Close) run on goroutines the driver started
+			who := bound // O (handleOpen), C (Close) and P run on goroutines the driver started
+			if who == "" && gid == rGid.Load() {
+				who = "R" // the read loop is known by its goroutine
+			}
+			if point == "dc.setstate.loaded" {
+				// setReadyState is called by everybody, also on the way to the calls the model describes
+				// (a new channel is set to connecting): only the store that follows the actor's modelled
+				// gate is a step of the schedule; everything else runs free
+				lastMu.Lock()
+				prev := last[who]
+				lastMu.Unlock()
+				want := map[string]string{"O": "dc.handleOpen.unlocked", "C": "dc.close.checked", "P": "pc.close.step5", "R": "dc.readLoop.ending"}
+				if who == "" || (prev != want[who] && prev != "dc.setstate.loaded") {
+					return ""
+				}
+			}
+			if who != "" {
+				lastMu.Lock()
+				last[who] = point
+				lastMu.Unlock()
+			}
+			return who
 		}
 		if pc, ok := obj.(*PeerConnection); ok && pc == pair.a && point == "pc.close.step5" {
+			lastMu.Lock()
+			last[bound] = point
+			lastMu.Unlock()
 			return bound
 		}
 		return ""
@@ -139,13 +170,28 @@ func vdRun(t *testing.T, tr *vkTrace, bh vdBehaviour, pair *vdPair) (bool, bool)
 		tr.Emit(vkM{"ev": "store", "t": bh.ID, "to": st.String(), "by": by, "ordered": ordered,
 			"sig": fmt.Sprintf("store(%s,by=%s,start=%s)", st.String(), by, bh.Start)})
 	}
+	// never waits for the transport's lock: PeerConnection.Close holds it while it stores closed on
+	// every channel, and may be held at a gate right there
 	findChannel := func() *DataChannel {
-		pair.a.sctpTransport.lock.RLock()
-		defer pair.a.sctpTransport.lock.RUnlock()
-		for _, d := range pair.a.sctpTransport.dataChannels {
-			if d.label == label {
-				return d
+		mu.Lock()
+		known := dcp
+		mu.Unlock()
+		if known != nil {
+			return known
+		}
+		end := time.Now().Add(gates.deadline)
+		for time.Now().Before(end) {
+			if pair.a.sctpTransport.lock.TryRLock() {
+				var found *DataChannel
+				for _, d := range pair.a.sctpTransport.dataChannels {
+					if d.label == label {
+						found = d
+					}
+				}
+				pair.a.sctpTransport.lock.RUnlock()
+				return found
 			}
+			time.Sleep(50 * time.Microsecond)
 		}
 		return nil
 	}
@@ -225,8 +271,13 @@ func vdRun(t *testing.T, tr *vkTrace, bh vdBehaviour, pair *vdPair) (bool, bool)
 		}
 	} else {
 		started := map[string]bool{}
-		for _, st := range bh.Steps {
+		skipLoad := map[string]bool{}
+		for si, st := range bh.Steps {
 			if !driven {
+				if vkEnvInt("VERIF_DEBUG", 0) > 0 && si > 0 {
+					p := bh.Steps[si-1]
+					t.Logf("behaviour %d not driven at step %d (%s %s); %s is at %q", bh.ID, si-1, p.Proc, p.Label, p.Proc, gates.Poll(p.Proc))
+				}
 				break
 			}
 			switch st.Label {
@@ -253,6 +304,48 @@ func vdRun(t *testing.T, tr *vkTrace, bh vdBehaviour, pair *vdPair) (bool, bool)
 				}
 			case "rWait":
 				if gates.Await("R") != "dc.readLoop.ending" {
+					driven = false
+				}
+			case "oStore", "cStore", "pStore", "rStore", "sRet", "cAfter", "pAfter", "rAfter":
+				// steps of the model without a gate of their own (the call, the return, what follows the
+				// store in the same segment)
+				continue
+			case "sLoad":
+				if skipLoad[st.Proc] { // the code re-loaded by itself after a failed compare-and-swap
+					skipLoad[st.Proc] = false
+					continue
+				}
+				if vkEnded(gates.Poll(st.Proc)) {
+					continue
+				}
+				if at := gates.Step(st.Proc); at != "dc.setstate.loaded" {
+					driven = false // the model and the code disagree on where this segment ends
+				}
+			case "sCas":
+				if vkEnded(gates.Poll(st.Proc)) {
+					continue
+				}
+				at := gates.Step(st.Proc)
+				retry := false // does the model take the compare-and-swap to fail here?
+				for _, nx := range bh.Steps[si+1:] {
+					if nx.Proc == st.Proc {
+						retry = nx.Label == "sLoad"
+						break
+					}
+				}
+				if retry {
+					if at != "dc.setstate.loaded" {
+						driven = false
+					}
+					skipLoad[st.Proc] = true
+					continue
+				}
+				// the code loads again right after a failed compare-and-swap, i.e. earlier than the model's
+				// next load: it may need one more round than the model, with nobody else moving meanwhile
+				for n := 0; at == "dc.setstate.loaded" && n < 3; n++ {
+					at = gates.Step(st.Proc)
+				}
+				if at == "" || at == "dc.setstate.loaded" {
 					driven = false
 				}
 			case "oEnd", "cEnd":
